@@ -1641,7 +1641,9 @@ class ReturnAnnotation(Base):
 # ------------------------------------------------------------------ flip-flop writes the DSL has to understand or refuse
 # MAY_REJECT: the DSL may refuse these designs at elaboration (a pymtl3.dsl.errors exception); if it accepts one, the
 # simulation has to follow the reference under every schedule.
-MAY_REJECT = ("FFVarBit", "FFVarSlice", "FuncCombWriteInFF")
+MAY_REJECT = ("FFVarBit", "FFVarSlice", "FuncCombWriteInFF", "FFAliasWrite")
+# designs whose SIMULATION is wrong on the unchanged tree (known findings of C01): not subjects of the translation checks
+SIM_KNOWN_WRONG = ("FFAliasWrite",)
 
 
 def _reg_a_ref(st, a, b, sel, en, reset):
@@ -1986,6 +1988,29 @@ class NameStartsWithDef(Base):
     def up_nsd_q():
       default = s.w + 2
       s.q @= default
+
+
+def _ff_alias_ref(st, a, b, sel, en, reset):
+  regs = ((a) & M8, (a + 1) & M8, (a + 2) & M8)
+  return regs, {"o": regs[0] ^ regs[1] ^ regs[2]}
+
+
+@design(_ff_alias_ref)
+class FFAliasWrite(Base):
+  """registers written through a local name bound in the flip-flop block (for i, r in enumerate(s.regs): r <<= ...)"""
+  def construct(s):
+    s.ports()
+    s.o = OutPort(Bits8)
+    s.regs = [Wire(Bits8) for _ in range(3)]
+
+    @update_ff
+    def ff_aw():
+      for i, r in enumerate(s.regs):
+        r <<= s.a + i
+
+    @update
+    def up_aw():
+      s.o @= s.regs[0] ^ s.regs[1] ^ s.regs[2]
 
 
 def sequences():
